@@ -198,6 +198,8 @@ def render_case(case, d):
         with open(os.path.join(d, name), "w") as fh:
             fh.write("\n".join(out) + ("\n" if out else ""))
     for n in names - set(case["files"]):
+        if os.path.dirname(n):
+            os.makedirs(os.path.join(d, os.path.dirname(n)), exist_ok=True)
         with open(os.path.join(d, n), "w") as fh:
             fh.write("-- stand-in for a name used by #line\n")
 
